@@ -396,6 +396,10 @@ def _classify(events, cert_bad):
     errs = [e for e in events if e[0] == "error_response"]
     if called and returned:
         if errs:        # the engine's answer was replaced
+            if errs[-1][1] == 0x100:
+                # the session could not encode the engine's answer and says so (General Failure);
+                # sent instead of dropping the response (repo commit aa0049f)
+                return "unencodable-replacement", (0x100,)
             return "oversize-replacement", (L.R_RESPONSE_TOO_LARGE,)
         return "engine-batch", None
     if called:
